@@ -412,4 +412,5 @@ func runCache(c *core.Ctx, e *env) {
 	wallets := []*chainkit.UWallet{chainkit.NewUWallet(wseed, 0, 2), chainkit.NewUWallet(wseed, 1, 2)}
 	objectCaches(c, e, wallets)
 	blockCaches(c, e, wallets)
+	inflightCache(c, e, wallets)
 }
